@@ -600,25 +600,27 @@ theorem dnConcatAlloc_le : ∀ (ps : List Bytes) (acc : Nat),
       simp only [List.length_cons, Nat.succ_mul]
       omega
 
-/-- **`GetDomainFromDistinguishedName`, everything it allocates on the way** (`dnAllocOf`: 16 per
-    part of the split, and every intermediate string of `domain += …`, garbage included) **is bounded
-    by a QUADRATIC polynomial** `(len+1)·(len+16)` of the input length, on every input.  Not linear,
-    and really so: `k` parts `DC=` make strings of 1, 2, …, `k` bytes (examples below: 4, 8, 16
-    parts cost 10, 36, 136 bytes of strings).  Only the last of them is still referenced when the
-    function returns, and it is `≤ len` (`domainOfDN_alloc_bound`). -/
-theorem dnAllocOf_le (dn : Bytes) : dnAllocOf dn ≤ (dn.length + 1) * (dn.length + 16) := by
+/-- **`GetDomainFromDistinguishedName`, everything it allocates on the way** (`dnAllocOf`: 16 per part and the bytes
+    written to the builder): linear, `≤ 17·len + 16`. -/
+theorem dnAllocOf_le (dn : Bytes) : dnAllocOf dn ≤ 17 * dn.length + 16 := by
   unfold dnAllocOf
+  have h2 := accumulate_length_le (splitDN dn)
+  obtain ⟨h3, h4⟩ := splitDN_sizes dn
+  omega
+
+/-- the repaired defect: string concatenation in the loop was quadratic -/
+theorem dnAllocConcat_le (dn : Bytes) : dnAllocConcat dn ≤ (dn.length + 1) * (dn.length + 16) := by
+  unfold dnAllocConcat
   have h1 := dnConcatAlloc_le (splitDN dn) 0
   have h2 := accumulate_length_le (splitDN dn)
   obtain ⟨h3, h4⟩ := splitDN_sizes dn
   have h5 : (splitDN dn).length * (0 + (accumulate (splitDN dn)).length) ≤ (dn.length + 1) * dn.length :=
     Nat.mul_le_mul h3 (by omega)
   have h6 : 16 * (splitDN dn).length ≤ (dn.length + 1) * 16 := by omega
-  rw [Nat.mul_add]
+  have : (dn.length + 1) * (dn.length + 16) = (dn.length + 1) * dn.length + (dn.length + 1) * 16 := by
+    rw [Nat.mul_add]
   omega
 
-/-- `DC=a,DC=b` -/
-example : domainOfDN [68, 67, 61, 97, 44, 68, 67, 61, 98] = [97, 46, 98] := by decide
 example : dnConcatAlloc (splitDN (List.replicate 4 [68, 67, 61, 44]).flatten) 0 = 10 := by decide
 example : dnConcatAlloc (splitDN (List.replicate 8 [68, 67, 61, 44]).flatten) 0 = 36 := by decide
 example : dnConcatAlloc (splitDN (List.replicate 16 [68, 67, 61, 44]).flatten) 0 = 136 := by decide
